@@ -20,3 +20,4 @@ def rules(ctx):
     S.child_pair_rules(ctx)
     S.root_pair_rules(ctx)
     S.separator_cut_rules(ctx)
+    S.leaf_width_rules(ctx)
